@@ -41,9 +41,9 @@ func (c ExprCase) source(t PType) string {
 		return fmt.Sprintf("set p to pattern %s begin %s return %s end find all p", Quote(c.Text), pre, e)
 	}
 	if t == TBool {
-		return fmt.Sprintf("set f to transform %s if %s then return 'T' else return 'F' end end replace all at least 1 any with f", pre, e)
+		return fmt.Sprintf("set f to transform %s if %s then return 'T' else return 'F' end end replace all at least 1 any with f '|' f", pre, e)
 	}
-	return fmt.Sprintf("set f to transform %s return %s end replace all at least 1 any with f", pre, e)
+	return fmt.Sprintf("set f to transform %s return %s end replace all at least 1 any with f '|' f", pre, e)
 }
 
 // checkExprCase returns status: "ok", "discard-undefined", "rejected", or a violation signature.
@@ -113,8 +113,10 @@ func checkExprCase(c ExprCase) (sig, what, status string) {
 			exp = "T"
 		}
 	}
-	if got != exp {
-		return "expr-mismatch", fmt.Sprintf("%s on %q: replacement %q, documented value is %s (expected %q)", src, c.Text, got, want, exp), ""
+	// the transform is called twice for the match: every call starts from the match
+	// alone (what an earlier call assigned is gone)
+	if got != exp+"|"+exp {
+		return "expr-mismatch", fmt.Sprintf("%s on %q: replacement %q, documented value is %s (expected %q)", src, c.Text, got, want, exp+"|"+exp), ""
 	}
 	return "", "", "ok"
 }
@@ -200,6 +202,11 @@ func TestC11Trees(t *testing.T) {
 		var pre []Stmt
 		if rapid.Bool().Draw(t, "withvars") {
 			pre = declareVars(eg)
+		}
+		if rapid.IntRange(0, 3).Draw(t, "readbeforewrite") == 0 {
+			// a name read before it is written: '' at the start of every call
+			pre = append(pre, Stmt{K: "set", Name: "acc", E: Bin("+", Var("acc", TString), Str("k"))})
+			eg.vars[TString] = append(eg.vars[TString], "acc")
 		}
 		if rapid.IntRange(0, 3).Draw(t, "withunbound") == 0 {
 			// a name that is never assigned: the checker types it as a string and it
